@@ -209,7 +209,37 @@ func as16(a []byte) []byte {
 	return make([]byte, 16)
 }
 
+// encodableName: what a DNS question name must look like to be encodable at all (RFC 1035 2.3.4: labels of
+// 1..63 octets, 255 octets on the wire, i.e. at most 254 bytes of text with its final dot; "." is the root).
+func encodableName(n string) bool {
+	if len(n) == 0 || len(n) > 254 || n[len(n)-1] != '.' {
+		return false
+	}
+	if n == "." {
+		return true
+	}
+	for _, l := range strings.Split(n[:len(n)-1], ".") {
+		if len(l) < 1 || len(l) > 63 {
+			return false
+		}
+	}
+	return true
+}
+
 func oracle(r *lib.Run, kind string, c nicCfg, a []string, obs string) {
+	// a request that cannot be encoded must be refused (no frame); one that can must be sent
+	sent := obs != "none" && obs != "panic"
+	replay := kind + " " + strings.Join(append(c.toks(), a...), " ")
+	switch kind {
+	case "mdnsq", "llmnrq":
+		if enc := encodableName(string(lib.UnHex(a[0]))); enc != sent && obs != "panic" {
+			r.Viol("c07."+kind+".refusal", fmt.Sprintf("name encodable=%v but frame sent=%v", enc, sent), replay)
+		}
+	case "nbnsq":
+		if fits := len(lib.UnHex(a[5])) <= 16; fits != sent && obs != "panic" {
+			r.Viol("c07.nbnsq.refusal", fmt.Sprintf("name fits 16 octets=%v but frame sent=%v", fits, sent), replay)
+		}
+	}
 	if obs == "none" || obs == "panic" {
 		if obs == "panic" {
 			r.Viol("c07."+kind+".panic", kind+" panics", kind+" "+strings.Join(append(c.toks(), a...), " "))
@@ -258,9 +288,7 @@ func oracle(r *lib.Run, kind string, c nicCfg, a []string, obs string) {
 				k.num("echo-id", be(m[4:6]), atoi(a[4]))
 				k.num("echo-seq", be(m[6:8]), atoi(a[5]))
 			case "ns", "na":
-				if isLinkLocal6(as16(u(3))) {
-					k.num("ndp-hop-255", hop, 255)
-				}
+				k.num("ndp-hop-255", hop, 255) // RFC 4861: every ND message
 				if len(m) < 24 {
 					k.fail("ndp-short", "len %d", len(m))
 					break
@@ -319,9 +347,7 @@ func oracle(r *lib.Run, kind string, c nicCfg, a []string, obs string) {
 			k.path = "ra"
 			ip6 := k.ether(f, u(0), c.hostMAC, 0x86dd)
 			m, hop := k.ip6(ip6, 58, as16(c.hostLLA.AsSlice()), as16(u(1)))
-			if isLinkLocal6(as16(u(1))) {
-				k.num("ndp-hop-255", hop, 255)
-			}
+			k.num("ndp-hop-255", hop, 255)
 			if len(m) < 16 {
 				k.fail("icmp-short", "len %d", len(m))
 				break
@@ -494,7 +520,11 @@ func oracle(r *lib.Run, kind string, c nicCfg, a []string, obs string) {
 				dip, port, qt = []byte{224, 0, 0, 252}, 5355, 12
 			}
 			pl := k.udp4(f, nil, c.hostMAC, c.hostIP.AsSlice(), dip, port, port, true)
-			k.dnsQuery(pl, -1, strings.Split(strings.TrimSuffix(string(u(0)), "."), "."), qt, 255)
+			labels := strings.Split(strings.TrimSuffix(string(u(0)), "."), ".")
+			if string(u(0)) == "." {
+				labels = nil // the root has no labels
+			}
+			k.dnsQuery(pl, -1, labels, qt, 255)
 		case "ssdp":
 			k.path = kind
 			pl := k.udp4(f, nil, c.hostMAC, c.hostIP.AsSlice(), []byte{239, 255, 255, 250}, 1900, 1900, true)
